@@ -21,7 +21,9 @@ from netqasm.sdk.classical_communication.thread_socket import socket as ts_socke
 from netqasm.sdk.classical_communication.thread_socket import socket_hub as ts_hub
 
 HUB_FILE = ts_hub.__file__
-SHARED = re.compile(r"self\._(open_sockets|remote_sockets|messages|recv_callbacks|conn_lost_callbacks|lock)\b|\bmessages\b|\bpending\b|\bmethod\(")
+# any attribute of the hub except its logger and the class constants, locals that alias shared containers,
+# callback invocations, and operations on event / condition objects
+SHARED = re.compile(r"self\._(?!logger\b|RECV_SLEEP_TIME\b|CONNECT_SLEEP_TIME\b)[a-z]\w*|\bmessages\b|\bpending\b|\bmethod\(|\b\w*(event|cond)\w*\.(set|clear|wait|notify\w*)\(")
 LOCK_LINE = re.compile(r"with\s+self\._lock\s*:")
 
 
@@ -69,6 +71,38 @@ class CoopLock:
         self.holder = None
 
 
+class CoopEvent:
+    """threading.Event for a hub that blocks on events instead of polling: a wait on an unset event parks the
+    worker until the scheduler sees the event set (a timed wait may always time out at once)."""
+
+    def __init__(self, sched: "Sched"):
+        self.sched = sched
+        self._flag = False
+
+    def set(self):
+        self._flag = True
+
+    def clear(self):
+        self._flag = False
+
+    def is_set(self):
+        return self._flag
+
+    isSet = is_set
+
+    def wait(self, timeout=None):
+        w = threading.current_thread()
+        while not self._flag:
+            if timeout is not None or not isinstance(w, Worker):
+                return False
+            w.blocked = self
+            try:
+                w.park(("<event-wait>", 0))
+            finally:
+                w.blocked = None
+        return True
+
+
 class Worker(threading.Thread):
     def __init__(self, sched: "Sched", tid: int, body: Callable[["Worker"], None]):
         super().__init__(daemon=True)
@@ -79,6 +113,7 @@ class Worker(threading.Thread):
         self.go = threading.Event()
         self.parked = threading.Event()
         self.abort = False
+        self.blocked: Optional[CoopEvent] = None       # parked inside CoopEvent.wait
 
     # -- tracing ----------------------------------------------------------
     def _global(self, frame, event, arg):
@@ -125,6 +160,9 @@ class Sched:
     """Owns a fresh hub and the workers of one run."""
 
     def __init__(self):
+        if hasattr(ts_hub, "Event"):
+            # a hub that waits on threading.Event objects: make them cooperative before the hub creates any
+            ts_hub.Event = lambda: CoopEvent(self)  # type: ignore
         self.hub = ts_hub._SocketHub()
         self.hub.__class__._CONNECT_SLEEP_TIME = 0
         self.hub.__class__._RECV_SLEEP_TIME = 0
@@ -150,6 +188,8 @@ class Sched:
                 continue
             text = self.lines.get(w.at, "") if w.at else ""
             if LOCK_LINE.search(text) and self.lock.holder is not None and self.lock.holder != tid:
+                continue
+            if w.blocked is not None and not w.blocked.is_set():
                 continue
             out.append(tid)
         return out
